@@ -55,6 +55,11 @@ def run(ctx):
     emission_order(ctx, prods)
     pad_spec(ctx)
     routes(ctx, pl)
+    ctx.rule('C01.9', 'per-group real count = min(bs, n - g*bs) in all residue / position cases (every producer)')
+    from .. import groupcount
+    for pr in prods:
+        groupcount.check_producer(ctx, 'C01.9', pr.func)
+    ctx.floor('C01.9', 3, 'producers')
 
 
 def fillers_of(P, G, pr):
